@@ -5,7 +5,13 @@
 
 use super::*;
 
+/// true under the solver (stubs applied); false in kani's native playback (no stubs)
+static mut G_STUBS_ON: bool = false;
+
 pub fn fixed_random_state() -> std::hash::RandomState {
+    unsafe {
+        G_STUBS_ON = true;
+    }
     unsafe { std::mem::transmute::<[u64; 2], std::hash::RandomState>([0u64; 2]) }
 }
 
@@ -264,31 +270,41 @@ fn c13_cast_relation_record_pairs() {
     let r0 = arena.alloc(Record::new("A".into(), RecordKind::Class, loc));
     let r1 = arena.alloc(Record::new("B".into(), RecordKind::Class, loc));
     let r2 = arena.alloc(Record::new("C".into(), RecordKind::Class, loc));
-    let sm = SymbolMap { record_list: arena, ..Default::default() };
-    let sub: [[bool; 3]; 3] = kani::any();
-    unsafe {
-        G_SUB = sub;
-        G_IDS = [r0.index(), r1.index(), r2.index()];
+    // the subclass relation: reachability over symbolic acyclic parent edges B->A, C->A, C->B
+    let (e10, e20, e21): (bool, bool, bool) = (kani::any(), kani::any(), kani::any());
+    let h = Hier { ids: [r0, r1, r2], e10, e20, e21 };
+    let stubs_on = unsafe { G_STUBS_ON };
+    if stubs_on {
+        // under the solver Record::is_subclass_of is replaced by this relation (its own
+        // recursion over parent lists does not finish, see DESIGN C13)
+        let mut sub = [[false; 3]; 3];
+        sub[1][0] = is_sub(&h, 1, 0);
+        sub[2][0] = is_sub(&h, 2, 0);
+        sub[2][1] = is_sub(&h, 2, 1);
+        unsafe {
+            G_SUB = sub;
+            G_IDS = [r0.index(), r1.index(), r2.index()];
+        }
+    } else {
+        // native replay (no stubs): the same relation through the real parent lists
+        if e10 {
+            arena[r1].add_parent(r0);
+        }
+        if e20 {
+            arena[r2].add_parent(r0);
+        }
+        if e21 {
+            arena[r2].add_parent(r1);
+        }
     }
-    let h = Hier { ids: [r0, r1, r2], e10: false, e20: false, e21: false };
+    let sm = SymbolMap { record_list: arena, ..Default::default() };
     let (a, na, la) = any_rec_type(&h, 2);
     let (b, nb, lb) = any_rec_type(&h, 2);
     let got = a.can_be_casted_to(&sm, &b);
-    // reference: `?` wildcard; same nesting; records: identical or `a` is a subclass of `b`
-    let want = if la == 5 && na <= nb {
-        true
-    } else if lb == 5 && nb <= na {
-        true
-    } else if na != nb {
-        false
-    } else if la <= 2 && lb <= 2 {
-        la == lb || sub[la as usize][lb as usize]
-    } else {
-        la == lb
-    };
+    let want = ref_rec_compatible(&h, (na, la), (nb, lb));
     assert!(got == want, "C13: a record (or list of records) converts exactly to itself and to its superclasses");
-    kani::cover!(got && la == 2 && lb == 0 && na == 1 && !sub[0][2], "W: list<C> to list<A> by subclassing only");
-    kani::cover!(!got && la == 0 && lb == 2 && na == 1 && sub[2][0], "W: list<A> is not list<C> although C is a subclass of A");
+    kani::cover!(got && la == 2 && lb == 0 && na == 1 && !e20, "W: list<C> to list<A> through B");
+    kani::cover!(!got && la == 0 && lb == 2 && na == 1 && e20, "W: list<A> is not list<C> although C is a subclass of A");
     std::mem::forget(a);
     std::mem::forget(b);
     std::mem::forget(sm);
